@@ -1,6 +1,7 @@
 package main
 
 import (
+	"strconv"
 	"fmt"
 	"math"
 	"os"
@@ -263,6 +264,14 @@ func init() {
 	}
 	register("calc.constant", func(a []string) string {
 		return ratesOut(constant.CalculateConstantRate(0, unhex(a[0]), unhex(a[1])))
+	})
+	// calc.constantj <rate> <dist> <jitter text>: the constant builder with a jitter spelt as `--jitter` / `jitter:` spell it
+	register("calc.constantj", func(a []string) string {
+		j, err := strconv.ParseFloat(unhex(a[2]), 64)
+		if err != nil {
+			return "err"
+		}
+		return ratesOut(constant.CalculateConstantRate(j, unhex(a[0]), unhex(a[1])))
 	})
 	register("calc.ramp", func(a []string) string {
 		return ratesOut(ramp.CalculateRampRate(unhex(a[0]), unhex(a[1]), unhex(a[2]), time.Duration(atoi64(a[3])), 0))
